@@ -47,7 +47,9 @@ func (ct *CommonTag) render(name string, p *renderState, wr *bytes.Buffer) error
 	case ct.SelfClosing:
 		fmt.Fprintf(wr, `<%s%s>`, name, attrs)
 
-	case name == "script" && strings.Index(subblock.String(), "\n") > -1:
+	case name == "script" && !p.debug && strings.Index(subblock.String(), "\n") > -1:
+		// production only: in debug mode every separator written into the block ends in a line feed of its
+		// own, which is not part of the script, and the separators below already put the content on its own lines
 		fmt.Fprintf(wr, "<%s%s>\n%s\n</%s>", name, attrs, subblock.String(), name)
 
 	case !ct.Block.Inline() && p.debug:
